@@ -566,6 +566,7 @@ class Forcing(BaseForce):
         nc = Dataset(self.file_idx[time_step])
         nc.set_auto_maskandscale(False)
         self._nc = nc
+        self._nc_file = self.file_idx[time_step]
 
         # Get scaling info per variable
         self.scaled = dict()
@@ -589,12 +590,7 @@ class Forcing(BaseForce):
         # Always read velocity before other fields
         logger.info("Reading velocity for time step = %s", time_step)
 
-        if self._first_read:
-            self.open_forcing_file(time_step)  # Open first file
-            self._first_read = False
-        elif self.frame_idx[time_step] == 0:  # Open next file
-            self._nc.close()
-            self.open_forcing_file(time_step)
+        self._select_file(time_step)
 
         frame = self.frame_idx[time_step]
 
@@ -616,8 +612,18 @@ class Forcing(BaseForce):
         np.multiply(V, self.grid.Mv, out=V)
         return U, V
 
+    def _select_file(self, time_step: int) -> None:
+        """Make sure the file holding the given time step is the open one"""
+        if self._first_read:
+            self.open_forcing_file(time_step)  # Open first file
+            self._first_read = False
+        elif self.file_idx[time_step] != self._nc_file:  # Open another file
+            self._nc.close()
+            self.open_forcing_file(time_step)
+
     def _read_field(self, name: str, n: int) -> Field:
         """Read a 3D field"""
+        self._select_file(n)
         frame = self.frame_idx[n]
         F0: Field = self._nc.variables[name][frame, :, self.grid.J, self.grid.I]
         if self.scaled[name]:
